@@ -211,6 +211,33 @@ def make_obj(kind, name, astat, istat, attr_value, item_value, item_key=None):
     return None
 
 
+def metaclass_bearing_classes():
+    """class objects whose type is a metaclass other than `type` (isinstance(obj, type) holds, type(obj) is type does not):
+    Enum classes, ABCs, a custom metaclass, a class of a metaclass with __getattr__; plus instances of subclasses of the
+    subclassable C-level types the sandbox tables mention (only `type` is subclassable among them)"""
+    import abc
+    import enum
+
+    class Color(enum.Enum):
+        RED = 1
+
+    class Shape(abc.ABC):
+        @abc.abstractmethod
+        def area(self):
+            return 0
+
+    class Meta(type):
+        registry = "META-PUB"
+
+    class Model(metaclass=Meta):
+        pub = "PUBLIC"
+        _csecret = SENT + "m"
+
+    class IntFlagLike(enum.IntFlag):
+        A = 1
+    return {"enum-class": Color, "abc-class": Shape, "metaclass-class": Model, "intflag-class": IntFlagLike, "metaclass": Meta}
+
+
 def real_objects():
     """real interpreter objects of the C-level branches (closed by the caller)"""
     def gen():
@@ -350,6 +377,8 @@ def tracer_data():
     cr, ag = coro(), agen()
     data.update({"dyn": Dyn(), "dynall": DynAll(), "rz": Raising(), "fr": sys._getframe(), "co": tracer_function().__code__,
                  "tb": tb, "cr": cr, "ag": ag, "tup": (Tracer(),)})
+    mc = metaclass_bearing_classes()
+    data.update({"EnumC": mc["enum-class"], "AbcC": mc["abc-class"], "MetaC": mc["metaclass-class"], "EnumMember": mc["enum-class"].RED})
     gclose = g.close
 
     def close_all():
@@ -386,6 +415,7 @@ BASES = [
     ("o.child", lambda d: d["o"].child),
     ("dyn", lambda d: d["dyn"]), ("dynall", lambda d: d["dynall"]), ("rz", lambda d: d["rz"]), ("fr", lambda d: d["fr"]),
     ("co", lambda d: d["co"]), ("tb", lambda d: d["tb"]), ("cr", lambda d: d["cr"]), ("ag", lambda d: d["ag"]), ("tup[0]", lambda d: d["tup"][0]),
+    ("EnumC", lambda d: d["EnumC"]), ("AbcC", lambda d: d["AbcC"]), ("MetaC", lambda d: d["MetaC"]), ("EnumMember", lambda d: d["EnumMember"]),
 ]
 
 # access paths: %(b)s base expression, %(n)s attribute name
